@@ -783,4 +783,13 @@ theorem old_mode_line_in_combined_section_resets_diff_type :
      | .error _ => []) =
       [(7, .zero, " a"), (8, .minus, " b"), (9, .zero, "-B1"), (10, .plus, "+B1x"), (11, .zero, " c")] := by decide
 
+/-- the hypothesis `cols` of `CombinedBodyLine` is needed (confirmed on the binary, notes/S4-strengthen-C01.md): an EMPTY
+line inside a combined hunk — git always writes the marker columns, an editor or mail program may strip them from a
+blank context line — has no columns; delta reads every following line of the hunk with as many columns as that line
+had, i.e. none: `++x`, `- y` are shown whole (text intact) but as unchanged lines. -/
+theorem empty_line_in_combined_hunk_loses_the_columns :
+    (match run {} (combinedPre ++ ["  a", "", "++x", "- y"].map mkL) with
+     | .ok m => (m.out.filter (fun r => isBody r.kind)).map (fun r => (r.src, r.kind, String.ofList r.text))
+     | .error _ => []) = [(5, .zero, "  a"), (6, .zero, ""), (7, .zero, "++x"), (8, .zero, "- y")] := by decide
+
 end C01
